@@ -146,9 +146,12 @@ def replay(obj):
 
 LEVEL_TEXT = ('Partial. Proved over the Gallina eId model: the provision\'s own id is the same in the whole document and in the fragment parsed with '
               'the enclosing element\'s eId as prefix whenever it is number-derived and unsuffixed in both, and every id inside the fragment follows '
-              'the naming convention relative to that prefix (C18_* theorems). Equality of the ids inside the provision (the document-wide counter '
-              'state does not leak in) and locality of the grammar are decided by the fragment oracle on the implementation: every provision of '
+              'the naming convention relative to that prefix; eId generation for a subtree reads and writes the generator only at keys under its '
+              'prefix (C18_rewrite_is_local), so a provision that takes its number from its own num, rewritten in context from any generator state in '
+              'which no key extends its id and rewritten alone from a fresh generator with the same prefix, is the same tree - its own id and every '
+              'id inside it (C18_provision_ids_agree). That no earlier id of a document extends a later provision\'s id, and locality of the '
+              'grammar, are decided by the fragment oracle on the implementation: every provision of '
               'generated documents, at every depth, re-parsed alone and compared byte for byte with its subtree; the pipeline model is tied to the '
               'code for root rule hier_element with prefixes by the e2e stage.')
 LEVEL_NOTE = 'Trusted: Coq kernel; hand models tied by sampling; translators; extraction+driver.'
-TECHNIQUE = 'Rocq proof (path-determined ids) + differential run with fragment roots + exhaustive per-provision fragment oracle'
+TECHNIQUE = 'Rocq proof (path-determined ids; frame/locality of the generator state by induction over trees) + differential run with fragment roots + exhaustive per-provision fragment oracle'
